@@ -147,6 +147,118 @@ def sender_hs(key):
 
 def receiver_hs(key):
     return b"transit receiver " + hexl(_hkdf(key, 32, b"transit_receiver")) + b" ready\n\n"
+# ---- C10 / C15 (props/dilq.py); sequences may be deques or lists, sets are Python sets
+def seqnum(r):
+    return getattr(r, "seqnum", -1)
+
+
+def contig(q, n):
+    q = list(q)
+    return all(seqnum(r) == n - len(q) + i for i, r in enumerate(q))
+
+
+def suffix_of(u, q):
+    u, q = list(u), list(q)
+    return len(u) <= len(q) and q[len(q) - len(u):] == u
+
+
+def no_records(s):
+    return len(s) == 0
+
+
+def new_part(q, q0):
+    return list(q)[len(q0):]
+
+
+def all_above(q, x):
+    return all(seqnum(r) > x for r in q)
+
+
+def dropped_acked(oldq, newq, x):
+    oldq, newq = list(oldq), list(newq)
+    d = len(oldq) - len(newq)
+    return d >= 0 and oldq[d:] == newq and all(seqnum(r) <= x for r in oldq[:d])
+
+
+def conn_sent(ob):
+    c = ob._connection
+    return list(c.sent) if c is not None else []
+
+
+def conn_same(ob, oldob):
+    a, b = ob._connection, oldob._connection
+    return (a is None and b is None) or (a is not None and b is not None and getattr(a, "ident", a) == getattr(b, "ident", b))
+
+
+def conn_is(ob, c):
+    return ob._connection is not None and getattr(ob._connection, "ident", None) == getattr(c, "ident", c)
+
+
+def reading_paused(ob):
+    return bool(ob._connection is not None and ob._connection.paused_reading)
+
+
+def index_of(s, x):
+    s = list(s)
+    return s.index(x) if x in s else -1
+
+
+def partition(allp, P, U):
+    return not (set(P) & set(U)) and (set(P) | set(U)) == set(allp)
+
+
+def distinct(s):
+    s = list(s)
+    return len(set(s)) == len(s)
+
+
+def paused_first(allp, P, U):
+    return all(index_of(allp, y) < index_of(allp, x) for x in U for y in P)
+
+
+def no_member(S):
+    return len(S) == 0
+
+
+def registered(m, allp):
+    vals = list(m.values())
+    return all(v in list(allp) for v in vals) and len(set(vals)) == len(vals)
+
+
+def same_set(A, B):
+    return set(A) == set(B)
+
+
+def set_plus(A, B, x):
+    return set(A) == set(B) | {x}
+
+
+def set_minus(A, B, x):
+    return set(A) == set(B) - {x}
+
+
+def set_union_is(A, B, C):
+    return set(A) == set(B) | set(C)
+
+
+def removed_at(new, old, x):
+    old = list(old)
+    if x not in old:
+        return False
+    k = old.index(x)
+    return list(new) == old[:k] + old[k + 1:]
+
+
+def none_before(allp, n, S):
+    return all(p not in S for p in list(allp)[:n])
+
+
+def moved_to_paused(P, U, P0, U0):
+    return set(P) | set(U) == set(P0) | set(U0) and set(P0) <= set(P) and set(U) <= set(U0)
+
+
+def is_pull(p):
+    return type(p).__name__ == "PullToPush"
 
 
 def ite(c, a, b):
@@ -155,3 +267,9 @@ def ite(c, a, b):
 
 NATIVE.update({"be_value": be_value, "be_enc": be_enc, "min2": min2, "exc_class": exc_class, "hkdf": _hkdf, "hexl": hexl,
                "sender_hs": sender_hs, "receiver_hs": receiver_hs, "ite": ite})
+NATIVE.update({k: v for k, v in dict(
+    seqnum=seqnum, contig=contig, suffix_of=suffix_of, no_records=no_records, new_part=new_part, all_above=all_above,
+    dropped_acked=dropped_acked, conn_sent=conn_sent, conn_same=conn_same, conn_is=conn_is, reading_paused=reading_paused,
+    index_of=index_of, partition=partition, distinct=distinct, paused_first=paused_first, no_member=no_member,
+    registered=registered, same_set=same_set, set_plus=set_plus, set_minus=set_minus, set_union_is=set_union_is,
+    removed_at=removed_at, none_before=none_before, moved_to_paused=moved_to_paused, is_pull=is_pull, ite=ite).items()})
